@@ -244,12 +244,12 @@ def renderCluster (c : Cluster) : String :=
   s!"{c.name}\{{c.epoch};{renderCfg c.config};{String.intercalate "/" (c.chunks.map renderChunk)}}"
 
 def renderStore (s : Store) : String :=
-  let ps := sortStr (s.proxies.map fun p => s!"{p.addr}|{p.node0}|{p.node1}|{p.host}|{p.cluster.getD "~"}")
+  let ps := sortStr (s.proxies.map fun p => s!"{p.addr}|{p.node0}|{p.node1}|{p.host}|{p.index}|{p.cluster.getD "~"}")
   let fs := sortStr s.failed
   let rs := sortStr (s.failures.map fun e =>
     s!"{e.1}:{String.intercalate "/" (sortStr (e.2.map fun r => s!"{r.1}@{r.2}"))}")
   let cs := (s.clusters.mergeSort fun a b => decide (a.name ≤ b.name)).map renderCluster
-  s!"G={s.globalEpoch} P={String.intercalate "," ps} F={String.intercalate "," fs} R={String.intercalate "," rs} C={String.intercalate "," cs}"
+  s!"G={s.globalEpoch} O={if s.ordered then 1 else 0} P={String.intercalate "," ps} F={String.intercalate "," fs} R={String.intercalate "," rs} C={String.intercalate "," cs}"
 
 def renderTag : Tag → String
   | .none => ""
